@@ -172,7 +172,7 @@ STRS = ["", "n", "lane-0", "ü", "a b", '"q"', "x\\y"]
 
 
 def budget(tier):
-    return dict(examples=110, seconds=38) if tier == "quick" else dict(examples=1500, seconds=440)
+    return dict(examples=80, seconds=30) if tier == "quick" else dict(examples=1500, seconds=400)
 
 
 # ------------------------------------------------------------------------------------------------ strategy
